@@ -17,7 +17,8 @@ CFG = {
     ],
     "rule": "codecs: thrift header maps (0..300 entries, boundary lengths 65535/65536) through the real WriteHeaders/ReadHeaders and the arg2 KeyValIterator; HTTP requests/responses (methods, URLs up to 16384 bytes, status codes, multi-valued and non-canonical header keys, over-size buffers) through the real WriteRequest/ReadRequest/ResponseWriter/ReadResponse on in-memory arg streams; uvarints; each valid encoding also as hostile variants (every kind of truncation, boundary bytes, junk, random, varints >= 2^63), every call under recover() so a panic is an observation. hdrpath: real thrift and JSON client/server pairs, headers attached to the context vs. headers seen by the handler and response headers seen by the caller. All cases distinct by input.",
     "trusted_base": COMMON_TRUSTED + [
-        "modelled by hand (tied by correspondence): thrift WriteHeaders/readHeaders, arg2 KeyValIterator, http writeHeaders/readHeaders/readVarintString/WriteRequest/ReadRequest/ResponseWriter/ReadResponse byte layer, typed.ReadBuffer.ReadBytes guard, encoding/binary uvarint (re-modelled from its source)",
+        "regenerated from source on every run and proved equal to the hand model (C18_codecs_generated; go2v method translator, Gen/GenCodecs.v + Gen/GenTypedBuf.v): arg2 NewKeyValIterator/Next (one step = kv_next), typed.ReadBuffer.ReadBytes for every Go int (= r_bytes_go, hence the slice guard incl. negative lengths), NewReadBuffer/NewWriteBuffer, http readVarintString/writeVarintString (over a hand re-model of encoding/binary's uvarint loops on the generated ReadByte/WriteBytes, Model/UvarintG.v). Trusted there: go2v/methods.go, Base/GoSem.v, the views of Proofs/GenTypedBufP.v",
+        "modelled by hand (tied by correspondence): thrift WriteHeaders/readHeaders, the iteration loop around KeyValIterator.Next, http writeHeaders/readHeaders/WriteRequest/ReadRequest/ResponseWriter/ReadResponse byte layer, encoding/binary uvarint (re-modelled from its source)",
         "library oracles, not modelled: encoding/json, thrift struct (de)serialisation, net/http request/URL construction (cases the library rejects are skipped); the thrift/JSON header path through client/server is covered by the hdrpath oracle only"
 ],
     "assumptions": [
